@@ -53,6 +53,19 @@ def instances(tier, seed):
                                         label="roundtrip %s %s idx=%d %s via=%s" % (cls, "".join(kinds), idx, kind, via), key="roundtrip/%s" % cls))
     for ver in ("0.1", "0.2", "0.3"):
         out.append(dict(op="oldversion", version=ver, label="load of dump format %s" % ver, key="roundtrip/old"))
+    # long thin chains: 11 and 12 sites (more than 10 bonds - everything that enumerates, sorts or formats per-bond keys is exercised beyond one digit), bond
+    # dimension 1-2, a different label on (almost) every bond
+    for n in (11, 12):
+        kinds = tuple(["e"] * n)
+        bonds = tuple([1] + [2 if 0 < i < n and i % 4 == 2 else 1 for i in range(1, n)] + [1])
+        qn = [[[0]]]
+        for i in range(1, n):
+            lab = (i + 1) // 2
+            qn.append([[lab]] if bonds[i] == 1 else [[lab], [lab - 1 if lab > 0 else lab + 1]])
+        qn.append([[0]])
+        for cls in ("mps", "mpdm"):
+            out.append(dict(op="roundtrip", cls=cls, kinds=kinds, bonds=bonds, qn=qn, qntot=(n + 1) // 2, qnidx=n - 1, to_right=False, kind="real", via="mps",
+                            label="roundtrip %s %d-site thin chain (more than 10 bonds)" % (cls, n), key="roundtrip/%s/long" % cls))
     # float build: what is stored depends on NumPy dtypes (real matrices with a complex prefactor, complex matrices with a real prefactor, ...), which the
     # object backend cannot tell apart - one concrete run per dtype combination
     for cls in ("mps", "mpdm"):
@@ -291,7 +304,8 @@ def make_roundtrip(P):
         ctx.check("centre, direction, sector identical", b.qnidx == a.qnidx and b.to_right == a.to_right and lib.ctx_eq_labels(ctx, b.qntot, a.qntot))
         if P["via"] == "mps":
             ctx.check("prefactor identical", ctx.eq(b.coeff, a.coeff))
-            ctx.check("represented object identical", ctx.eq(lib.dense_of(b), lib.dense_of(a)))
+            if n <= 6:      # (long thin chains: tensors, labels and prefactor are compared one by one; the dense object would have 2^n .. 4^n entries)
+                ctx.check("represented object identical", ctx.eq(lib.dense_of(b), lib.dense_of(a)))
         ctx.check("invariant transfers", lib.inv_relation(ctx, b))
     return h
 
